@@ -328,6 +328,11 @@ func (w *world) embBefore(c *contractDef, s *nom.AccountBlock) *embPre {
 	if m == nil {
 		return nil
 	}
+	if m.fn == "emb_token" && w.deep != nil && len(w.tokens) > 6 && w.rng.Intn(3) != 0 {
+		// histories with many issued tokens: every token case carries the whole token table; a third of them is compared
+		// with the model (the oracles of receiveOne run on all of them)
+		return nil
+	}
 	p := &embPre{m: m}
 	p.tokens = []types.ZenonTokenStandard{s.TokenStandard, types.ZnnTokenStandard, types.QsrTokenStandard}
 	if m.fn == "emb_token" && m.id == 1 { // Mint: the minted token
